@@ -133,6 +133,9 @@ func ListDiamonds(repo string, stores context2.Stores, opts ...Option) (model.Di
 
 	workers.Wait()
 
+	// batches are sorted individually and come in key order: sort again to get the same order whatever the batch size
+	sort.Sort(diamonds)
+
 	return diamonds, err // we may have some batches resolved before the error occurred
 }
 
